@@ -73,6 +73,10 @@ CHECKS = {
    technique='bounded-exhaustive enumeration of source layers x converters x options and of interrupt positions (retry) on a real content store with the oracle recomputed from the store; stateless schedule exploration (statement-level scheduling points, concurrent-map-access model) of parallel layer conversions by one converter instance',
    text='36 sources x 4 converters x option sets; every content-writer Write position interrupted then retried; 2-3 layers converted in parallel + finalize under all schedules with <=1 (quick) / <=2 (thorough) preemptions; descriptor digest/size, TOC digest annotation verified through the mount path (metadata reader + fs/reader VerifyTOC + file reads), uncompressed size/label, media type, lossless DiffID, TOC manifest mapping every converted layer.',
    note='estargz.Build and the content store run un-instrumented (private to one conversion); scheduling points before every statement of the three converter files; pigz/igzip disabled'),
+ 'C04': dict(level='exploration', design='3/C04',
+   technique='bounded-exhaustive enumeration of hostile inputs (footers, TOC JSON structures, payload mutations, HTTP range replies, builder inputs) pushed through every public entry point in crash-isolated child processes',
+   text='Every blob length 0..120, every single-byte mutation of each footer kind, all small TOCs over adversarial names/types/link targets/numeric fields wrapped in each container format, every single-byte mutation of a valid blob, a grammar of Content-Range/multipart replies, cyclic/truncated builder inputs; each through ParseFooter/ParseTOC/Open/VerifyTOC, both metadata stores with full walks, fs/reader prefetch/read/passthrough, remote blob reads, Build/Unpack; verdict per (input, stage): ok, error, panic, fatal, hang (3 of 3 fresh processes over 30 s CPU).',
+   note='exhaustive over the stated small alphabets only (not all byte strings); stack overflow judged at 64 MiB stack; 4 GiB address-space limit; predicted-death inputs are executed until two same-key deaths were seen (reported as caps)'),
 }
 
 NOT_YET = 'check not built yet in this session (work in progress; see DESIGN.md section 3)'
